@@ -199,7 +199,9 @@ def run(tier="quick", seed=0):
                             elif sig != first:
                                 problems.append("%s: loaded data differ from those of the first row order" % label)
             # cluster files: minimal layout and per-sample ("tidy") layout, with and without an outlier_prob column
-            cl_of = {m: (1 + (i % 2) * 6, None) for i, m in enumerate(sorted({r["mutation_id"] for r in rows}))}
+            # cluster ids in ascending order of their first member in even scenarios, in descending order (first mutation in the largest id) in odd ones:
+            # the numbering of the data points must follow the sorted ids, not the order in which the clusters are met
+            cl_of = {m: ((1 + (i % 2) * 6) if sc % 2 == 0 else (9 - (i % 3) * 4), None) for i, m in enumerate(sorted({r["mutation_id"] for r in rows}))}
             for layout in ("minimal", "per-sample", "with-prob"):
                 cases += 1
                 cpath = os.path.join(tmp, "clusters.tsv")
